@@ -130,12 +130,33 @@ def run_case(case):
         ncomp = 3
     elif fam == 'B':
         call('EBCM_from_graph', EoN.EBCM_from_graph, G, tau, gamma, rho=rho, **tk)
-        call('EBCM_pref_mix', EoN.EBCM_pref_mix, N, Pk, odereg.uncorrelated_Pnk(Pk), tau, gamma, rho=rho, **tk)
+        Pnk = odereg.uncorrelated_Pnk(Pk)
+        if case['seed'] % 2:
+            # a parameter sweep re-uses the same Pk / Pnk objects: an earlier call (other tau, other rho) must not colour this one
+            with warnings.catch_warnings():
+                warnings.simplefilter('ignore')
+                try:
+                    EoN.EBCM_pref_mix(N, Pk, Pnk, 0.5 * tau + 0.1, gamma + 0.3, rho=0.35, tmin=0, tmax=1.0, tcount=4)
+                    EoN.EBCM_pref_mix_discrete(N, Pk, Pnk, 0.4, rho=0.25, tmin=0, tmax=3)
+                except Exception:
+                    pass
+            bump(res, 'pref_mix_calls_after_earlier_calls_on_the_same_objects')
+        call('EBCM_pref_mix', EoN.EBCM_pref_mix, N, Pk, Pnk, tau, gamma, rho=rho, **tk)
         ncomp = 3
     elif fam == 'Bd':
         t0 = int(case['tmin'])
         call('EBCM_discrete_from_graph', EoN.EBCM_discrete_from_graph, G, case['p'], rho=rho, tmin=t0, tmax=t0 + 8)
-        call('EBCM_pref_mix_discrete', EoN.EBCM_pref_mix_discrete, N, Pk, odereg.uncorrelated_Pnk(Pk), case['p'], rho=rho, tmin=t0, tmax=t0 + 8)
+        Pnk = odereg.uncorrelated_Pnk(Pk)
+        if case['seed'] % 2:
+            with warnings.catch_warnings():
+                warnings.simplefilter('ignore')
+                try:
+                    EoN.EBCM_pref_mix(N, Pk, Pnk, 0.7, 1.3, rho=0.35, tmin=0, tmax=1.0, tcount=4)
+                    EoN.EBCM_pref_mix_discrete(N, Pk, Pnk, 0.4, rho=0.25, tmin=0, tmax=3)
+                except Exception:
+                    pass
+            bump(res, 'pref_mix_calls_after_earlier_calls_on_the_same_objects')
+        call('EBCM_pref_mix_discrete', EoN.EBCM_pref_mix_discrete, N, Pk, Pnk, case['p'], rho=rho, tmin=t0, tmax=t0 + 8)
         ncomp = 3
     elif fam in ('C_SIR', 'C_SIS'):
         m = fam[2:]
